@@ -24,6 +24,8 @@ type c06Case struct {
 	Hook float64 `json:"hook"`  // ebg.cas / ebg.won probability
 	Msg  bool    `json:"msg"`   // message events instead of signals
 	Reps int     `json:"reps"`
+	// Loop: the branch of alternative 0 leads back to the gateway (second, third ... activation of the same gateway)
+	Loop bool `json:"loop,omitempty"`
 }
 
 func c06Graph(c *c06Case) *gen.Graph {
@@ -32,7 +34,14 @@ func c06Graph(c *c06Case) *gen.Graph {
 	t0 := g.Add(gen.Task, "t0", "")
 	eg := g.Add(gen.EventGw, "eg", "")
 	g.Connect(s, t0, nil)
-	g.Connect(t0, eg, nil)
+	var xm *gen.Node
+	if c.Loop {
+		xm = g.Add(gen.Xor, "xm", "")
+		g.Connect(t0, xm, nil)
+		g.Connect(xm, eg, nil)
+	} else {
+		g.Connect(t0, eg, nil)
+	}
 	for i := 0; i < c.Alts; i++ {
 		ce := g.Add(gen.Catch, fmt.Sprintf("c%d", i), "")
 		if c.Msg {
@@ -41,10 +50,14 @@ func c06Graph(c *c06Case) *gen.Graph {
 			ce.Events = []gen.EventDef{{Type: "signal", Ref: fmt.Sprintf("ev%d", i)}}
 		}
 		t := g.Add(gen.Task, fmt.Sprintf("b%d", i), "")
-		e := g.Add(gen.End, fmt.Sprintf("e%d", i), "")
 		g.Connect(eg, ce, nil)
 		g.Connect(ce, t, nil)
-		g.Connect(t, e, nil)
+		if c.Loop && i == 0 {
+			g.Connect(t, xm, nil)
+		} else {
+			e := g.Add(gen.End, fmt.Sprintf("e%d", i), "")
+			g.Connect(t, e, nil)
+		}
 	}
 	return g
 }
@@ -88,6 +101,22 @@ func c06Cases(tier string, seed uint64) []fw.Case {
 				c.Name = fmt.Sprintf("seq/a%d-%v-h%v", alts, sq, hook)
 				cs = append(cs, fw.MkCase("sequential", &c))
 			}
+			// re-entry: alternative 0 loops back to the gateway; sequences that start with it
+			if len(sq) >= 2 && sq[0] == 0 {
+				for _, conc := range []bool{false, true} {
+					hook := float64(si % 2)
+					reps := 1
+					if conc {
+						reps = 5
+						if tier == "thorough" {
+							reps = 50
+						}
+					}
+					c := c06Case{Alts: alts, Seq: sq, Hook: hook, Msg: msg, Reps: reps, Loop: true, Conc: conc}
+					c.Name = fmt.Sprintf("loop/a%d-%v-conc%v-h%v", alts, sq, conc, hook)
+					cs = append(cs, fw.MkCase("loop", &c))
+				}
+			}
 			// concurrent: only sequences with >= 2 events
 			if len(sq) >= 2 {
 				for _, hook := range []float64{0, 0.5, 1} {
@@ -109,6 +138,10 @@ func c06Cases(tier string, seed uint64) []fw.Case {
 }
 
 func c06Run(c *c06Case, env *fw.Env, v *fw.V) {
+	if c.Loop {
+		c06RunLoop(c, env, v)
+		return
+	}
 	g := c06Graph(c)
 	defs, _, err := step.Parse(g)
 	if err != nil {
@@ -295,6 +328,245 @@ func c06Run(c *c06Case, env *fw.Env, v *fw.V) {
 	v.Add("traces", len(in.Log(0)))
 }
 
+// c06RunLoop: every activation of the same gateway has exactly one winner. The first
+// event of the sequence is delivered alone (alternative 0: its branch loops back and
+// re-arms the gateway); the rest is delivered one by one, or (Conc) all at once from
+// different goroutines. A winner's task is answered as soon as it is requested.
+func c06RunLoop(c *c06Case, env *fw.Env, v *fw.V) {
+	g := c06Graph(c)
+	defs, _, err := step.Parse(g)
+	if err != nil {
+		v.Inconclusive("parse", "%v", err)
+		return
+	}
+	perturb.Rendezvous("", 0)
+	if c.Hook > 0 {
+		perturb.ConfigureSites(map[string]float64{"ebg.cas": c.Hook, "ebg.won": c.Hook, "catch.consume": c.Hook / 2, "catch.event": c.Hook / 2}, 400)
+	} else {
+		perturb.Off()
+	}
+	in, err := drive.New(env.Label, defs, drive.Opts{ExtraSubs: 1})
+	if err != nil {
+		v.Violate("new-process-error", "error", "%v", err)
+		return
+	}
+	defer in.Cancel()
+	cls := fmt.Sprintf("alts=%d-conc=%v-reentry", c.Alts, c.Conc)
+	fail := func() { v.Log = in.Tail(60) }
+	quiet := func(what string) bool {
+		q := in.Quiesce(step.Watchdog)
+		v.Add("qpoints", 1)
+		if !q.Quiescent {
+			v.Inconclusive("watchdog", "no quiescent point %s: %v", what, quiesce.Summary(q.Gs))
+			return false
+		}
+		if gs := quiesce.DriverIn(q.Gs, "Process).ConsumeEvent"); len(gs) > 0 {
+			v.Violate("consume-blocked", cls, "%s: %d ConsumeEvent caller(s) still blocked at the quiescent point (at %s)", what, len(gs), gs[0].TopRepoFrame())
+			fail()
+			return false
+		}
+		return true
+	}
+	if err := in.Start(); err != nil {
+		v.Violate("start-error", "error", "%v", err)
+		return
+	}
+	if !quiet("after start") {
+		return
+	}
+	for _, r := range in.Pending() {
+		in.Answer(r, bpmn.DoWithResults(nil))
+	}
+	if !quiet("after answering t0") {
+		return
+	}
+	// model
+	activations, done := 1, false
+	want := map[string]int{} // requests per branch task
+	armed := true
+	branch := func() map[string]int {
+		m := map[string]int{}
+		for _, r := range in.Reqs() {
+			if r.Act != "t0" {
+				m[r.Act]++
+			}
+		}
+		return m
+	}
+	// whether every alternative listens again is decided by behaviour (the next matching event wins),
+	// not by counting listening traces: a catch event that stayed armed emits none on re-entry
+	checkArmed := func(what string) bool { return true }
+	// answer the winner's task; alternative 0 loops back
+	settle := func(what string) bool {
+		for guard := 0; guard < 4; guard++ {
+			p := in.Pending()
+			if len(p) == 0 {
+				return true
+			}
+			for _, r := range p {
+				in.Answer(r, bpmn.DoWithResults(nil))
+			}
+			if !quiet(what + ", after answering the winner's task") {
+				return false
+			}
+		}
+		return true
+	}
+	apply := func(e int) {
+		if !armed || done || e >= c.Alts {
+			return
+		}
+		want[fmt.Sprintf("b%d", e)]++
+		if e == 0 {
+			activations++
+		} else {
+			armed, done = false, true
+		}
+	}
+	compare := func(what string) bool {
+		got := branch()
+		if fmt.Sprint(got) != fmt.Sprint(want) {
+			rule := "winner-count"
+			v.Violate(rule, cls, "%s: branch requests %v, expected %v (events so far as listed; every activation of the gateway has exactly one winner)", what, got, want)
+			fail()
+			return false
+		}
+		return true
+	}
+	if !checkArmed("after the first activation") {
+		return
+	}
+	rest := c.Seq
+	if c.Conc {
+		// first event alone, the rest at once
+		e := c.Seq[0]
+		ev := c06Event(c, e)
+		in.Go("ConsumeEvent", func() error { _, err := in.Proc.ConsumeEvent(ev); return err })
+		if !quiet("after the first event") {
+			return
+		}
+		apply(e)
+		if !compare(fmt.Sprintf("after event %d", e)) || !settle("first event") {
+			return
+		}
+		if !checkArmed("after the loop came back to the gateway") {
+			return
+		}
+		rest = c.Seq[1:]
+		var wg sync.WaitGroup
+		barrier := make(chan struct{})
+		for _, e := range rest {
+			wg.Add(1)
+			ev := c06Event(c, e)
+			go func() {
+				defer wg.Done()
+				<-barrier
+				in.Proc.ConsumeEvent(ev)
+			}()
+		}
+		close(barrier)
+		if !quiet("after concurrent delivery in the second activation") {
+			return
+		}
+		wg.Wait()
+		// exactly one winner among the distinct real alternatives delivered (none if only strangers)
+		got := branch()
+		extra := 0
+		var winner string
+		for k, n := range got {
+			d := n - want[k]
+			if d < 0 || d > 1 {
+				extra = 99
+			}
+			if d == 1 {
+				extra++
+				winner = k
+			}
+		}
+		real := false
+		for _, e := range rest {
+			if e < c.Alts {
+				real = true
+			}
+		}
+		if (real && extra != 1) || (!real && extra != 0) {
+			v.Violate("winner-count", cls, "second activation, events %v delivered at once: branch requests %v (before: %v), expected exactly one more in total", rest, got, want)
+			fail()
+			return
+		}
+		if winner != "" {
+			want[winner]++
+			if winner == "b0" {
+				activations++
+			} else {
+				armed, done = false, true
+			}
+		}
+		if !settle("concurrent delivery") {
+			return
+		}
+		// events of the batch that lost or came too late are gone: whatever is armed now starts afresh
+		if !done {
+			if !checkArmed("after the second activation was won by the looping alternative") {
+				return
+			}
+		}
+	} else {
+		for i, e := range rest {
+			ev := c06Event(c, e)
+			in.Go("ConsumeEvent", func() error { _, err := in.Proc.ConsumeEvent(ev); return err })
+			if !quiet(fmt.Sprintf("after delivering event #%d", i)) {
+				return
+			}
+			apply(e)
+			if !compare(fmt.Sprintf("after events %v", c.Seq[:i+1])) {
+				return
+			}
+			if !settle(fmt.Sprintf("event #%d", i)) {
+				return
+			}
+			if !done && !checkArmed(fmt.Sprintf("after events %v", c.Seq[:i+1])) {
+				return
+			}
+		}
+	}
+	if n := in.Count("Determination", "eg"); n != activations-1+btoi(done) {
+		v.Violate("determination-count", cls, "%d determination traces, expected %d (activations %d, finished %v)", n, activations-1+btoi(done), activations, done)
+		fail()
+		return
+	}
+	if !done {
+		// finish through alternative 1
+		ev := c06Event(c, 1)
+		in.Go("ConsumeEvent", func() error { _, err := in.Proc.ConsumeEvent(ev); return err })
+		if !quiet("after the finishing event") {
+			return
+		}
+		apply(1)
+		if !compare("after the finishing event") || !settle("finishing event") {
+			return
+		}
+	}
+	if n := in.Count("CeaseFlow", ""); n != 1 {
+		v.Violate("not-complete", cls, "winner's branch ended but %d cease-flow traces after %d activations", n, activations)
+		fail()
+		return
+	}
+	// late deliveries have no effect
+	for i := 0; i < c.Alts; i++ {
+		ev := c06Event(c, i)
+		in.Go("ConsumeEvent", func() error { _, err := in.Proc.ConsumeEvent(ev); return err })
+	}
+	if !quiet("after late deliveries") {
+		return
+	}
+	if !compare("after late deliveries") {
+		return
+	}
+	v.Add("activations", activations)
+	v.Add("traces", len(in.Log(0)))
+}
+
 func init() {
 	fw.Register(&fw.Prop{
 		ID:    "C06",
@@ -313,7 +585,7 @@ func init() {
 			v.Nontrivial = true
 			return v
 		},
-		Rule:        "gateways with 2 and 3 alternatives x all non-empty sequences of length <= 4 over the alternatives' events plus a stranger event, delivered sequentially (quiescence between deliveries; winner must be the first delivered alternative) and concurrently from different goroutines behind a barrier (exactly one request in total), signal and message events, determination hooks at probability 0/0.5/1; then the winner's task is answered: instance completes, waiter returns, late deliveries of every alternative have no effect; all cases non-trivial; distinct = descriptor hash",
+		Rule:        "gateways with 2 and 3 alternatives x all non-empty sequences of length <= 4 over the alternatives' events plus a stranger event, delivered sequentially (quiescence between deliveries; winner must be the first delivered alternative) and concurrently from different goroutines behind a barrier (exactly one request in total), signal and message events, determination hooks at probability 0/0.5/1; then the winner's task is answered: instance completes, waiter returns, late deliveries of every alternative have no effect; re-entry variants: alternative 0's branch loops back to the same gateway (2..4 activations), every activation must re-arm all alternatives and have exactly one winner, sequentially and with the second activation's events delivered at once; all cases non-trivial; distinct = descriptor hash",
 		Exhaustive:  func(tier string) bool { return tier == "thorough" },
 		Assumptions: []string{"events are delivered through Process.ConsumeEvent"},
 	})
